@@ -56,7 +56,7 @@ impl FuzzCase for c17::C17 {
             steps.push(c17::Step { partner: u.arbitrary()?, mode: u.int_in_range(0..=6u8)?, reps: u.int_in_range(0..=2u8)? });
         }
         let (xf, concrete) = (gb::xf(u)?, u.arbitrary()?);
-        Ok(s.map(|s| c17::Case { p: s.a, partners: s.partners, steps, xf, concrete, trusted: true }))
+        Ok(s.map(|s| c17::Case { p: s.a, partners: s.partners, steps, xf, concrete, mix: None, trusted: true }))
     }
 }
 impl FuzzCase for c12::C12 {
@@ -72,7 +72,7 @@ impl FuzzCase for c12::C12 {
             // half of the queries are features of the scene
             let pool: Vec<_> = s.a.coords().into_iter().chain(s.partners.iter().flat_map(|p| p.coords())).collect();
             let queries = queries.iter().enumerate().map(|(i, q)| if i % 2 == 0 && !pool.is_empty() { pool[(q.0.unsigned_abs() as usize) % pool.len()] } else { *q }).collect();
-            c12::Case { g: s.a, queries, xf, trusted: true }
+            c12::Case { g: s.a, queries, xf, noise: 0, trusted: true }
         }))
     }
 }
